@@ -403,6 +403,12 @@ func genRaw(r *rnd, d int) *RawB {
 		rb := &RawB{Fn: "object"}
 		for i := r.n(3); i > 0; i-- {
 			rb.Keys = append(rb.Keys, RawB{Fn: "ident", Name: r.pick("k", "k2", "name")})
+			if r.chance(1, 5) {
+				// TokensForObject ends every member with a newline, so a
+				// heredoc is a legitimate member value
+				rb.Args = append(rb.Args, RawB{Fn: "lex", Src: r.pick("<<EOT\nobj ${o}\nEOT", "<<-EOT\n    in obj\n    EOT", "<<EOT\n${first}\nEOT")})
+				continue
+			}
 			rb.Args = append(rb.Args, *genRaw(r, d-1))
 		}
 		return rb
